@@ -66,14 +66,22 @@ class Check(PropertyCheck):
                 spec = jobgen.gen_spec(self.rng, jobcheck.RES, depth=self.rng.randint(1, 3), limits=limits, pool=pool,
                                        allow_fail=(i % 4 == 0))
                 kind = ["empty", "full", "partial"][i % 3]
+                inner = None
                 if i % 6 == 4:
+                    inner = spec
                     # a job routed to an unknown executor is rejected on the scheduler thread in dry and real runs alike
                     # (seeded change C28c: the dry-run return moved before the executor look-up); everything else cached
                     bad = (f"bx{i}", "leaf", 1, (), {"executor": "no_such_executor"})
-                    spec = (f"bn{i}", "list", 0, ((f"bc{i}", "catchany", 0, (bad,), None), spec), None)
+                    # (catch keeps a private cache entry for its recovery, so the plain form and catch_all are used)
+                    if (i // 6) % 2 == 0:
+                        spec = (f"bn{i}", "list", 0, (bad, spec), None)
+                    else:
+                        spec = (f"ba{i}", "all", 1, (bad, spec), None)
                     kind = "full"
                 base = tmp / f"b{i}.db"
                 if kind == "full":
+                    if inner is not None:     # the rest of the program completes and is recorded first (run fails fast otherwise)
+                        sched.run_program(lambda: vm.call(inner), limits, self.rng, db_path=str(base))
                     sched.run_program(lambda: vm.call(spec), limits, self.rng, db_path=str(base))
                 elif kind == "partial":
                     other = jobgen.gen_spec(self.rng, jobcheck.RES, depth=2, limits=limits, pool=pool, allow_fail=False)
